@@ -245,6 +245,29 @@ def run_case(case, obs):
                           region=repr(region)[:300], rotated=repr(rr)[:300])
         else:
             obs.ok(int(both.sum()), 'rot-membership')
+        # the positions themselves rotated with the library's PixCoord.rotate, as held in a catalogue grid (2-D / 3-D arrays, a scalar):
+        # they land where the rotation puts them, and are members of the rotated region exactly when the originals were of the original
+        k2 = (px.size // 2) * 2
+        if k2 >= 2:
+            shp = [(2, k2 // 2), (k2 // 2, 2), (k2 // 2, 1, 2)][case['rs'] % 3]
+            pcn = PixCoord(px[:k2].reshape(shp), py[:k2].reshape(shp))
+            try:
+                rot = pcn.rotate(pivot, A)
+                okr = np.shape(rot.x) == shp and np.shape(rot.y) == shp
+                if okr:
+                    dev = np.hypot(np.asarray(rot.x, dtype=float).ravel() - qx[:k2], np.asarray(rot.y, dtype=float).ravel() - qy[:k2])
+                    tolq = 1e-9 * (1 + reach[:k2]) * (1 + abs(th)) + 64 * geom.EPS64 * (abs(pv[0]) + abs(pv[1]))
+                    okr = bool(np.all(dev <= tolq))
+                obs.check(okr, 'rotated-positions-wrong', f'PixCoord of shape {shp}.rotate(pivot={pv}, {A}) gives shape {np.shape(rot.x)}'
+                          + ('' if np.shape(rot.x) != shp else f', positions up to {float(dev.max()):.3g} px from where the rotation puts them'), 'rot-positions')
+                if okr:
+                    got_n = np.asarray(rr.contains(rot)).ravel()
+                    badn = both[:k2] & (got_n != got0[:k2])
+                    obs.check(not badn.any(), 'rotate-membership-differs:' + type(region).__name__,
+                              f'{type(region).__name__}: positions of shape {shp} rotated with PixCoord.rotate are members of the rotated region where the '
+                              f'originals were not (or the reverse): {int(badn.sum())} positions', 'rot-membership')
+            except Exception as exc:
+                obs.violation('rotated-positions-wrong', f'PixCoord of shape {shp}.rotate raised {type(exc).__name__}: {exc}')
         # parameters of the rotated region: positions rotated by the harness's own rotation, angle advanced, sizes kept
         ok, why = True, ''
         tolp = 1e-9 * (L + math.hypot(cx - pv[0], cy - pv[1])) + 64 * geom.EPS64 * (abs(pv[0]) + abs(pv[1]) + abs(cx) + abs(cy)) * (1 + abs(th))
